@@ -138,6 +138,10 @@ def theorem_forms(ctx, res):
             ok = "ok" in ru
             if ok:
                 ok = run_keeps(ru["ok"], s_["denote"])
+                # ... and is exactly the table of theorem C01_columns_exact_in_the_reported_table (extracted Output.format on denote)
+                rep = s_.get("reported", {})
+                if "ok" in rep and canon_impl(ru["ok"]) != canon_model(rep["ok"]):
+                    ok = False
             if not ok:
                 res.violation("input", "run(): columns / name / schema differ from the Coq specification (Table.denote)",
                               ddl=x.rstrip() + ";", norm=norm, args=a, oracle="coq_denote_run")
